@@ -5,6 +5,7 @@ import (
 	"runtime/debug"
 	"sort"
 	"strings"
+	"sync"
 	"time"
 	"unsafe"
 
@@ -125,6 +126,8 @@ type Sim struct {
 	lastStats  string
 	maxTypes   int
 	lastReset  int
+	lockMu     *sync.Mutex // ark's world-lock mutex, learned through the lock hook
+	prevYield  func(uint8, *sync.Mutex)
 	resetSnap  *resetSnapshot
 	firedLog   []string
 	firedRaw   []firing
@@ -179,6 +182,12 @@ func NewSim(cfg Config, flags Flags, prof *Profile) *Sim {
 		}
 		return t
 	}
+	s.prevYield = ecs.Verif.Yield
+	ecs.Verif.Yield = func(kind uint8, mu *sync.Mutex) {
+		if mu != nil {
+			s.lockMu = mu
+		}
+	}
 	if cfg.WeakOn {
 		Tracker = &WeakTracker{Objs: map[uint64][]weak_t{}}
 	} else {
@@ -189,6 +198,7 @@ func NewSim(cfg Config, flags Flags, prof *Profile) *Sim {
 
 // Done releases global hooks.
 func (s *Sim) Done() {
+	ecs.Verif.Yield = s.prevYield
 	ecs.Verif.Probe = nil
 	ecs.Verif.Skew = nil
 	Tracker = nil
@@ -231,10 +241,24 @@ func (s *Sim) call(fn func()) (panicked bool, val any) {
 			}
 			panicked = true
 			val = r
+			s.checkMutexFree(r)
 		}
 	}()
 	fn()
 	return false, nil
+}
+
+// checkMutexFree verifies after a recovered panic that ark's world-lock mutex was
+// not left locked (every later query creation or Close would block for ever).
+func (s *Sim) checkMutexFree(r any) {
+	if s.lockMu == nil || s.fatal {
+		return
+	}
+	if s.lockMu.TryLock() {
+		s.lockMu.Unlock()
+		return
+	}
+	s.violate("C07", "lock.mutex", "left_locked_after_panic", true, "after a recovered panic (%v) the world-lock mutex is still held: every later Query or Close blocks for ever", r)
 }
 
 // harnessBug is a panic raised by the harness itself; it is never swallowed.
@@ -391,8 +415,23 @@ func (s *Sim) Run(ops []Op) {
 	}
 }
 
-// Step executes one op and the per-op oracles.
+// Step executes one op and the per-op oracles. A panic that escapes from a
+// read or oracle call into ark (i.e. outside the calls whose panic is an
+// expected outcome) means the world can no longer be read: fatal violation.
 func (s *Sim) Step(op *Op) {
+	defer func() {
+		if r := recover(); r != nil {
+			if hb, ok := r.(harnessBug); ok {
+				panic(hb)
+			}
+			s.cur = nil
+			s.violate("C01", "store.readable", op.K, true, "reading the world during/after %s panicked: %v", op.K, r)
+		}
+	}()
+	s.step(op)
+}
+
+func (s *Sim) step(op *Op) {
 	s.C.Ops[op.K]++
 	switch op.K {
 	case KNewEntity:
